@@ -138,7 +138,45 @@ pub fn stateful_small(out: &mut Out) {
     }
 }
 
+/// matrices collected from row iterators that misreport their length (an exact-looking `size_hint`
+/// equal to the first row's length): ragged input must still be refused; whatever comes back must
+/// describe its elements, and every in-shape index must resolve inside the buffer
+fn lying_rows(out: &mut Out) {
+    out.case("matrices collected from row iterators with a wrong size_hint");
+    out.nontrivial();
+    for lens in [vec![2usize, 1, 3], vec![3, 2], vec![1, 2], vec![2, 3, 1], vec![2, 2, 2], vec![3, 3], vec![2, 4], vec![0, 1]] {
+        let op = format!("oracle collect-lying-rows {:?}", lens).replace(' ', "");
+        let op = op.replacen("oracle", "oracle ", 1);
+        out.announce(&op);
+        let ncols = lens[0];
+        let uniform = lens.iter().all(|&l| l == ncols);
+        let mut k = 0u32;
+        let rows: Vec<Vec<u32>> = lens.iter().map(|&n| (0..n).map(|_| { k += 1; k }).collect()).collect();
+        let flat: Vec<u32> = rows.iter().flatten().copied().collect();
+        let res = catch(|| rows.into_iter().map(|r| crate::hist::Liar { it: r.into_iter(), claim: ncols }).collect::<Matrix<u32>>());
+        match res {
+            None => { if uniform { out.oracle_fail(&format!("{op}: uniform rows were refused")); } }
+            Some(m) => {
+                if !uniform { out.oracle_fail(&format!("{op}: ragged rows were accepted as a {}x{} matrix", m.nrows(), m.ncols())); }
+                if m.nrows() * m.ncols() != m.size() {
+                    out.oracle_fail(&format!("{op}: a {}x{} matrix over {} elements: in-shape indices would resolve outside the buffer", m.nrows(), m.ncols(), m.size()));
+                } else {
+                    for r in 0..m.nrows() { for c in 0..m.ncols() {
+                        match m.get((r, c)) {
+                            Ok(v) if uniform && *v != flat[r * ncols + c] => out.oracle_fail(&format!("{op}: get(({r},{c})) = {v}")),
+                            Ok(_) => {}
+                            Err(_) => out.oracle_fail(&format!("{op}: get(({r},{c})) failed inside the shape")),
+                        }
+                    } }
+                }
+            }
+        }
+        out.observe("ok");
+    }
+}
+
 pub fn run_c04(out: &mut Out, rng: &mut Rng, tier: Tier) -> String {
+    lying_rows(out);
     let bound = if tier == Tier::Quick { 4 } else { 5 };
     let mut kind_rot = 0usize;
     // exhaustive core: all shapes up to the bound (degenerate included), both orders, all
